@@ -173,6 +173,13 @@ inductive MR where
   | hit (n : Node) (ps : Params)
   deriving Repr
 
+/-- The undo of `matchChildren` after a child's subtree failed (D30 repair): the parameter of that name gets the value it
+had before the child's segment matched, or is deleted if it had none. -/
+def restoreParam (before after : Params) (name : Bytes) : Params :=
+  match before.get? name with
+  | some v => after.set name v
+  | none => after.erase name
+
 mutual
 /-- `node.matchChildren`. -/
 def Node.matchChildren (env : Env) (ic : Interceptors) : Node → Bytes → Params → MR
@@ -201,8 +208,9 @@ def matchAt (env : Env) (ic : Interceptors) : List Node → Nat → Bytes → Pa
       Node.matchChildren env ic c rest ps1
   | _ :: cs, i + 1, path, ps => matchAt env ic cs i path ps
 
-/-- The `LOOP:` part, starting at child `skip`. After a child's subtree fails, the child's own
-name is deleted (D1 repair). -/
+/-- The `LOOP:` part, starting at child `skip`. After a child's subtree fails, the parameter of the child's own
+name is put back to what it was before the child's segment matched: restored to its previous value if it had one,
+deleted otherwise (D1 repair, refined by the D30 repair: `restoreParam`). -/
 def matchFrom (env : Env) (ic : Interceptors) : List Node → Nat → Bytes → Params → MR
   | [], _, _, ps => .miss ps
   | _ :: cs, skip + 1, path, ps => matchFrom env ic cs skip path ps
@@ -213,7 +221,7 @@ def matchFrom (env : Env) (ic : Interceptors) : List Node → Nat → Bytes → 
     | .yes cap rest =>
       let ps1 := if c.seg.kind ≠ .str ∧ ¬ c.seg.ignoreName then ps.set c.seg.name cap else ps
       match Node.matchChildren env ic c rest ps1 with
-      | .miss ps2 => matchFrom env ic cs 0 path (ps2.erase c.seg.name)
+      | .miss ps2 => matchFrom env ic cs 0 path (restoreParam ps ps2 c.seg.name)
       | r => r
 end
 
